@@ -1,7 +1,7 @@
 (* C11 -- Minimal m-separator search is sound, complete and minimal. Statements: C11/Spec.v; model: C11/Model.v *)
 From Coq Require Import List Arith.
-From PG Require Import Base.ListSet Graph.MGraph Graph.MSep Graph.Walks C01.Model C12.Model C12.Enum C11.Model C11.Spec
-  C11.Proofs C11.Anterior C11.Sound C11.Bounded_3 C11.Bounded_4 C11.Refuted.
+From PG Require Import Base.ListSet Graph.MGraph Graph.MSep Graph.Walks C01.Model C12.Model C12.Enum C12.Spec C11.Model C11.Spec
+  C11.Proofs C11.Anterior C11.Sound C11.Complete C11.Minimal C11.Exact C11.Full C11.Bounded_3 C11.Bounded_4 C11.Refuted.
 Import ListNotations.
 
 (* FULL soundness, all graphs of the domain of C01, all sizes: what the search returns lies between I and R and m-separates
@@ -21,6 +21,39 @@ Theorem is_minsep_sound : forall g x y Z I R,
   incl I Z /\ incl Z R /\ msep g [x] [y] Z.
 Proof. exact C11.Sound.is_minsep_sound. Qed.
 Print Assumptions is_minsep_sound.
+
+(* COMPLETENESS, all sizes: None exactly when no set between I and R m-separates x and y *)
+Theorem minsep_none_iff : forall g x y I R,
+  acyclicb g = true -> ancestral_und g -> In x (V g) -> In y (V g) -> x <> y ->
+  incl I R -> incl R (V g) -> ~ In x R -> ~ In y R ->
+  (minsep_model g x y I R = None <-> ~ exists Z, incl I Z /\ incl Z R /\ msep g [x] [y] Z).
+Proof. exact C11.Complete.minsep_none_iff. Qed.
+Print Assumptions minsep_none_iff.
+
+(* MINIMALITY, all sizes: no proper subset of the returned set that still contains I separates *)
+Theorem minsep_minimal : forall g x y I R Z,
+  acyclicb g = true -> ancestral_und g -> In x (V g) -> In y (V g) -> x <> y ->
+  incl I R -> incl R (V g) -> ~ In x R -> ~ In y R ->
+  minsep_model g x y I R = Some Z ->
+  forall Z'', incl I Z'' -> incl Z'' Z -> ~ incl Z Z'' -> ~ msep g [x] [y] Z''.
+Proof. exact C11.Minimal.minsep_minimal. Qed.
+Print Assumptions minsep_minimal.
+
+(* EXACTNESS of the test, all sizes: 1 exactly for the minimal separators between I and R *)
+Theorem is_minsep_exact : forall g x y Z I R,
+  acyclicb g = true -> ancestral_und g -> In x (V g) -> In y (V g) -> x <> y ->
+  incl I R -> incl R (V g) -> ~ In x R -> ~ In y R ->
+  (is_minsep_model g x y Z I R = 1 <->
+   incl I Z /\ incl Z R /\ msep g [x] [y] Z /\
+   forall Z'', incl I Z'' -> incl Z'' Z -> ~ incl Z Z'' -> ~ msep g [x] [y] Z'').
+Proof. exact C11.Exact.is_minsep_exact. Qed.
+Print Assumptions is_minsep_exact.
+
+(* the four statements of C11/Spec.v verbatim (domain of C01 by the boolean class tests) *)
+Theorem c11_full : minsep_sound_stmt /\ minsep_complete_stmt /\ minsep_minimal_stmt /\ is_minsep_exact_stmt.
+Proof. exact (conj C11.Full.minsep_sound_full (conj C11.Full.minsep_complete_full
+               (conj C11.Full.minsep_minimal_full C11.Full.is_minsep_exact_full))). Qed.
+Print Assumptions c11_full.
 
 (* the anterior-restriction lemma: separation in the subgraph induced by a set S closed under parents and undirected
    neighbours that contains x, y and Z implies separation in g (no arrowhead at an endpoint of an undirected edge) *)
